@@ -885,6 +885,15 @@ func (te *TemplateEngine) cloneDocument(source *Document) *Document {
 		copy(doc.documentRelationships.Relationships, source.documentRelationships.Relationships)
 	}
 
+	// 复制包级关系（_rels/.rels），否则打开的文档中 docProps 等部件的关系会在渲染结果中丢失
+	if source.relationships != nil {
+		doc.relationships = &Relationships{
+			Xmlns:         source.relationships.Xmlns,
+			Relationships: make([]Relationship, len(source.relationships.Relationships)),
+		}
+		copy(doc.relationships.Relationships, source.relationships.Relationships)
+	}
+
 	// 复制内容类型
 	if source.contentTypes != nil {
 		doc.contentTypes = &ContentTypes{
